@@ -203,6 +203,8 @@ def jobs(tier):
         for comp in compositions(m):
             js.append(Job('bytes/' + '+'.join(map(str, comp)), path_bytes, comp=comp, prop=PROP))
     js.append(Job('bytes/switch', path_bytes, comp=None, plan=[('b', 1), ('m', '@'), ('b', 1), ('m', 'G'), ('b', 1)], prop=PROP))
+    js.append(Job('bytes/empty', path_bytes, comp=None, plan=[('b', 1), ('b', 0), ('b', 1), ('b', 0)], prop=PROP))
+    js.append(Job('bytes/empty8', path_bytes, comp=None, plan=[('m', '@'), ('b', 0), ('b', 1), ('m', 'G'), ('b', 0), ('b', 1)], prop=PROP))
     return js
 
 
